@@ -370,18 +370,6 @@ class Gen:
             refs = r.sample(pool, min(k, len(pool)))
             if not refs:
                 return None
-            # merging two handles of one container duplicates its product spaces (known finding)
-            if self.avoid_known:
-                conts = []
-                for ref in refs:
-                    if ref[0] == "h":
-                        conts.append(id(CompositeEnvelope._containers[w.handles[int(ref[1:])].uid]))
-                    else:
-                        e = w.envs[int(ref[1:])]
-                        if e.composite_envelope is not None:
-                            conts.append(id(CompositeEnvelope._containers[e.composite_envelope.uid]))
-                if len(set(conts)) != len(conts):
-                    return None
             st["args"] = refs
         elif what == "set_contraction":
             st["on"] = r.random() < 0.5
